@@ -3565,4 +3565,483 @@ theorem csubsel_cvalid (k n : ℤ) (R F : CSeq) :
 
 end Samplers
 
+
+/-! # Thirteenth batch: the dense enumeration of all planted-compatible clauses -/
+
+/-- sign vectors in the order of `itertools.product([-1, 1], repeat=n)` (first coordinate slowest, -1 first) -/
+def signsm : ℕ → List (List ℤ)
+  | 0 => [[]]
+  | n+1 => (signsm n).map (fun s => (-1:ℤ) :: s) ++ (signsm n).map (fun s => (1:ℤ) :: s)
+
+def signvecsm (k : ℤ) : CSeq := signsm k.toNat
+
+theorem length_signsm (b : ℕ) : (signsm b).length = 2^b := by
+  induction b with
+  | zero => simp [signsm]
+  | succ b ih => simp [signsm, ih, pow_succ]; ring
+
+/-- `n >= 0 -> clen(signvecsm(n)) == pow2(n)` -/
+theorem clen_signvecsm (n : ℤ) : n ≥ 0 → clen (signvecsm n) = pow2 n := by
+  intro _
+  unfold clen signvecsm
+  rw [length_signsm, pow2_eq]
+
+theorem mem_signsm (k : ℕ) (s : List ℤ) :
+    s ∈ signsm k ↔ s.length = k ∧ ∀ x ∈ s, x = -1 ∨ x = 1 := by
+  induction k generalizing s with
+  | zero =>
+    simp only [signsm, List.mem_singleton]
+    constructor
+    · rintro rfl; simp
+    · rintro ⟨h, _⟩; exact List.eq_nil_of_length_eq_zero h
+  | succ k ih =>
+    simp only [signsm, List.mem_append, List.mem_map]
+    constructor
+    · rintro (⟨t, ht, rfl⟩ | ⟨t, ht, rfl⟩)
+      · obtain ⟨h1, h2⟩ := (ih t).mp ht
+        refine ⟨by simp [h1], ?_⟩
+        intro x hx
+        rcases List.mem_cons.mp hx with rfl | hx
+        · exact Or.inl rfl
+        · exact h2 x hx
+      · obtain ⟨h1, h2⟩ := (ih t).mp ht
+        refine ⟨by simp [h1], ?_⟩
+        intro x hx
+        rcases List.mem_cons.mp hx with rfl | hx
+        · exact Or.inr rfl
+        · exact h2 x hx
+    · rintro ⟨hl, hx⟩
+      cases s with
+      | nil => simp at hl
+      | cons x t =>
+        have ht : t ∈ signsm k :=
+          (ih t).mpr ⟨by simpa using hl, fun y hy => hx y (List.mem_cons_of_mem _ hy)⟩
+        rcases hx x List.mem_cons_self with rfl | rfl
+        · exact Or.inl ⟨t, ht, rfl⟩
+        · exact Or.inr ⟨t, ht, rfl⟩
+
+theorem signsm_nodup (k : ℕ) : (signsm k).Nodup := by
+  induction k with
+  | zero => simp [signsm]
+  | succ k ih =>
+    rw [signsm]
+    apply List.Nodup.append
+    · exact ih.map (fun _ _ h => (List.cons.inj h).2)
+    · exact ih.map (fun _ _ h => (List.cons.inj h).2)
+    · intro c h1 h2
+      obtain ⟨t, _, rfl⟩ := List.mem_map.mp h1
+      obtain ⟨t', _, h⟩ := List.mem_map.mp h2
+      have := (List.cons.inj h).1
+      omega
+
+/-- `|.|` and sign of a product of a sign vector with a positive vector -/
+theorem smul_decomp : ∀ (s dom : List ℤ), s.length = dom.length →
+    (∀ x ∈ s, x = -1 ∨ x = 1) → (∀ y ∈ dom, 1 ≤ y) →
+    ((smul s dom).map (fun x => (x.natAbs : ℤ)) = dom ∧ (smul s dom).map Int.sign = s)
+  | [], [], _, _, _ => ⟨rfl, rfl⟩
+  | [], _ :: _, h, _, _ => by simp at h
+  | _ :: _, [], h, _, _ => by simp at h
+  | x :: s, y :: dom, h, hs, hd => by
+    obtain ⟨ih1, ih2⟩ := smul_decomp s dom (by simpa using h)
+      (fun z hz => hs z (List.mem_cons_of_mem _ hz)) (fun z hz => hd z (List.mem_cons_of_mem _ hz))
+    have hx := hs x List.mem_cons_self
+    have hy := hd y List.mem_cons_self
+    unfold smul at *
+    simp only [List.zipWith_cons_cons, List.map_cons, ih1, ih2]
+    have hsy : Int.sign y = 1 := Int.sign_eq_one_of_pos (by omega)
+    constructor
+    · congr 1
+      show ((x * y).natAbs : ℤ) = y
+      rcases hx with rfl | rfl <;> omega
+    · congr 1
+      show Int.sign (x * y) = x
+      rw [Int.sign_mul, hsy]
+      rcases hx with rfl | rfl <;> simp
+
+theorem smul_sign_abs (c : List ℤ) :
+    smul (c.map Int.sign) (c.map (fun x => (x.natAbs : ℤ))) = c := by
+  induction c with
+  | nil => rfl
+  | cons x t ih =>
+    unfold smul at *
+    simp only [List.map_cons, List.zipWith_cons_cons, ih, Int.sign_mul_natAbs]
+
+/-- `valid1` in terms of the list of absolute values -/
+theorem valid1_iff_abs (k n : ℤ) (c : ISeq) : valid1 k n c ↔
+    (c.length = k.toNat ∧ 0 ≤ k ∧ (∀ y ∈ c.map (fun x => (x.natAbs : ℤ)), 1 ≤ y ∧ y ≤ n) ∧
+     (c.map (fun x => (x.natAbs : ℤ))).Pairwise (· < ·)) := by
+  constructor
+  · intro h
+    have he := valid1_elem k n c h
+    obtain ⟨hl, _, hp⟩ := h
+    unfold ilen at hl
+    refine ⟨by omega, by omega, ?_, ?_⟩
+    · intro y hy
+      obtain ⟨x, hx, rfl⟩ := List.mem_map.mp hy
+      exact he x hx
+    · rw [List.pairwise_iff_getElem]
+      intro i j hi hj hij
+      simp only [List.length_map] at hi hj
+      have := hp (i : ℤ) (j : ℤ) ⟨by omega, by omega, by omega⟩
+      rw [iget_natCast c i hi, iget_natCast c j hj, zabs_eq_natAbs, zabs_eq_natAbs] at this
+      simpa using this
+  · rintro ⟨hl, hk, hb, hp⟩
+    refine ⟨by unfold ilen; omega, ?_, ?_⟩
+    · rintro j ⟨hj0, hj1⟩
+      have hlt : j.toNat < c.length := by omega
+      have hj : ((j.toNat : ℕ) : ℤ) = j := by omega
+      have := hb _ (List.mem_map.mpr ⟨c[j.toNat], List.getElem_mem hlt, rfl⟩)
+      rw [← hj, iget_natCast c _ hlt, zabs_eq_natAbs]
+      exact this
+    · rintro i j ⟨hi0, hij, hj1⟩
+      rw [List.pairwise_iff_getElem] at hp
+      have hi : i.toNat < c.length := by omega
+      have hj : j.toNat < c.length := by omega
+      have := hp i.toNat j.toNat (by simpa using hi) (by simpa using hj) (by omega)
+      have hi' : ((i.toNat : ℕ) : ℤ) = i := by omega
+      have hj' : ((j.toNat : ℕ) : ℤ) = j := by omega
+      rw [← hi', ← hj', iget_natCast c _ hi, iget_natCast c _ hj, zabs_eq_natAbs, zabs_eq_natAbs]
+      simpa using this
+
+theorem apseq_pairwise_lt (st n : ℤ) : (apseq st n).Pairwise (· < ·) := by
+  unfold apseq
+  rw [List.pairwise_map]
+  exact (List.pairwise_lt_range).imp (fun h => by omega)
+
+/-- the domains: `k`-subsets of `1..n` as increasing lists, in `itertools.combinations` order -/
+def ydomains (k n : ℤ) : CSeq := combs (apseq 1 n) k
+
+theorem ydomains_mem (k n : ℤ) (dom : ISeq) (h : dom ∈ ydomains k n) :
+    dom.length = k.toNat ∧ (∀ y ∈ dom, 1 ≤ y ∧ y ≤ n) ∧ dom.Pairwise (· < ·) := by
+  unfold ydomains combs at h
+  rw [mem_combsLex] at h
+  refine ⟨h.2, ?_, (apseq_pairwise_lt 1 n).sublist h.1⟩
+  intro y hy
+  obtain ⟨j, ⟨hj0, hj1⟩, rfl⟩ := (mem_apseq 1 n y).mp (h.1.subset hy)
+  omega
+
+theorem ydomains_nodup (k n : ℤ) : (ydomains k n).Nodup := by
+  unfold ydomains combs
+  rw [combsLex_eq_reverse, List.nodup_reverse]
+  exact List.nodup_sublistsLen _ ((apseq_pairwise_lt 1 n).imp (fun h => by omega))
+
+/-- all clauses `smul s dom` (unfiltered), domain by domain -/
+def allcl (k n : ℤ) : CSeq :=
+  ((ydomains k n).map (fun dom => (signvecsm k).map (fun s => smul s dom))).flatten
+
+theorem mem_allcl (k n : ℤ) (hk : 0 ≤ k) (c : ISeq) : c ∈ allcl k n ↔ valid1 k n c := by
+  unfold allcl signvecsm
+  simp only [List.mem_flatten, List.mem_map]
+  rw [valid1_iff_abs]
+  constructor
+  · rintro ⟨l, ⟨dom, hdom, rfl⟩, hc⟩
+    obtain ⟨s, hs, rfl⟩ := List.mem_map.mp hc
+    obtain ⟨hdl, hdb, hdp⟩ := ydomains_mem k n dom hdom
+    obtain ⟨hsl, hsx⟩ := (mem_signsm _ s).mp hs
+    obtain ⟨h1, _⟩ := smul_decomp s dom (by omega) hsx (fun y hy => (hdb y hy).1)
+    have hlen : (smul s dom).length = k.toNat := by
+      have := congrArg List.length h1
+      simp only [List.length_map] at this
+      omega
+    rw [h1]
+    exact ⟨hlen, hk, hdb, hdp⟩
+  · rintro ⟨hl, _, hb, hp⟩
+    refine ⟨_, ⟨c.map (fun x => (x.natAbs : ℤ)), ?_, rfl⟩,
+      List.mem_map.mpr ⟨c.map Int.sign, ?_, smul_sign_abs c⟩⟩
+    · unfold ydomains combs
+      rw [mem_combsLex]
+      refine ⟨?_, by simp [hl]⟩
+      have hsub : c.map (fun x => (x.natAbs : ℤ)) ⊆ apseq 1 n := by
+        intro y hy
+        have := hb y hy
+        exact (mem_apseq 1 n y).mpr ⟨y - 1, ⟨by omega, by omega⟩, by ring⟩
+      have hnd : (c.map (fun x => (x.natAbs : ℤ))).Nodup := hp.imp (fun h => by omega)
+      exact List.sublist_of_subperm_of_pairwise (r := (· ≤ ·)) (List.subperm_of_subset hnd hsub)
+        (hp.imp (fun h => by omega)) ((apseq_pairwise_lt 1 n).imp (fun h => by omega))
+    · rw [mem_signsm]
+      refine ⟨by simp [hl], ?_⟩
+      intro x hx
+      obtain ⟨z, hz, rfl⟩ := List.mem_map.mp hx
+      have := hb _ (List.mem_map.mpr ⟨z, hz, rfl⟩)
+      rcases lt_trichotomy z 0 with h | h | h
+      · exact Or.inl (Int.sign_eq_neg_one_of_neg h)
+      · subst h; simp at this
+      · exact Or.inr (Int.sign_eq_one_of_pos h)
+
+theorem allcl_nodup (k n : ℤ) : (allcl k n).Nodup := by
+  unfold allcl
+  rw [List.nodup_flatten]
+  constructor
+  · intro l hl
+    obtain ⟨dom, hdom, rfl⟩ := List.mem_map.mp hl
+    obtain ⟨hdl, hdb, _⟩ := ydomains_mem k n dom hdom
+    apply List.Nodup.map_on _ (signsm_nodup _)
+    intro s hs s' hs' heq
+    obtain ⟨hsl, hsx⟩ := (mem_signsm _ s).mp hs
+    obtain ⟨hsl', hsx'⟩ := (mem_signsm _ s').mp hs'
+    have h1 := (smul_decomp s dom (by omega) hsx (fun y hy => (hdb y hy).1)).2
+    have h2 := (smul_decomp s' dom (by omega) hsx' (fun y hy => (hdb y hy).1)).2
+    rw [← h1, ← h2, heq]
+  · rw [List.pairwise_map]
+    apply List.Pairwise.imp_of_mem _ (ydomains_nodup k n)
+    intro dom dom' hdom hdom' hne
+    rw [List.disjoint_left]
+    intro c hc hc'
+    apply hne
+    obtain ⟨s, hs, rfl⟩ := List.mem_map.mp hc
+    obtain ⟨s', hs', heq⟩ := List.mem_map.mp hc'
+    obtain ⟨hdl, hdb, _⟩ := ydomains_mem k n dom hdom
+    obtain ⟨hdl', hdb', _⟩ := ydomains_mem k n dom' hdom'
+    obtain ⟨hsl, hsx⟩ := (mem_signsm _ s).mp hs
+    obtain ⟨hsl', hsx'⟩ := (mem_signsm _ s').mp hs'
+    have h1 := (smul_decomp s dom (by omega) hsx (fun y hy => (hdb y hy).1)).1
+    have h2 := (smul_decomp s' dom' (by omega) hsx' (fun y hy => (hdb' y hy).1)).1
+    rw [← h1, ← h2, heq]
+
+section Dense
+
+variable (psat : ISeq → Prop)
+
+open Classical in
+/-- the planted-compatible clauses among the first `j` sign patterns over the domain `d` -/
+noncomputable def ysign (k : ℤ) (d : ISeq) (j : ℤ) : CSeq :=
+  (((signvecsm k).take j.toNat).map (fun s => smul s d)).filter (fun c => decide (psat c))
+
+/-- the same over the first `t` domains -/
+noncomputable def ydom (k n t : ℤ) : CSeq :=
+  (((ydomains k n).take t.toNat).map (fun dom => ysign psat k dom (pow2 k))).flatten
+
+/-- `j == 0 -> ysign(k, d, j) == cnil` -/
+theorem ysign_zero (k : ℤ) (d : ISeq) (j : ℤ) : j = 0 → ysign psat k d j = cnil := by
+  rintro rfl; simp [ysign, cnil]
+
+/-- `And(0 <= j, j < pow2(k), k >= 0) -> ysign(k, d, j + 1) == If(psat(c), csnoc(ysign(k, d, j), c), ysign(k, d, j))`,
+    `c = smul(cget(signvecsm(k), j), d)` -/
+theorem ysign_succ (k : ℤ) (d : ISeq) (j : ℤ) : (0 ≤ j ∧ j < pow2 k ∧ k ≥ 0) →
+    ysign psat k d (j + 1) =
+      (open Classical in
+       if psat (smul (cget (signvecsm k) j) d)
+       then csnoc (ysign psat k d j) (smul (cget (signvecsm k) j) d)
+       else ysign psat k d j) := by
+  rintro ⟨h0, h1, _⟩
+  have hlen : j.toNat < (signvecsm k).length := by
+    unfold signvecsm; rw [length_signsm]; rw [pow2_eq] at h1; omega
+  have hk : (j + 1).toNat = j.toNat + 1 := by omega
+  have hget : cget (signvecsm k) j = (signvecsm k)[j.toNat] := by
+    unfold cget
+    rw [List.getD_eq_getElem?_getD, List.getElem?_eq_getElem hlen]; rfl
+  unfold ysign csnoc
+  rw [hk, List.take_add_one, List.getElem?_eq_getElem hlen, hget, List.map_append, List.filter_append]
+  by_cases hp : psat (smul (signvecsm k)[j.toNat] d)
+  · simp [hp]
+  · simp [hp]
+
+/-- `t == 0 -> ydom(k, n, t) == cnil` -/
+theorem ydom_zero (k n t : ℤ) : t = 0 → ydom psat k n t = cnil := by
+  rintro rfl; simp [ydom, cnil]
+
+/-- `And(0 <= t, t < clen(D)) -> ydom(k, n, t + 1) == capp(ydom(k, n, t), ysign(k, cget(D, t), pow2(k)))`,
+    `D = combs(apseq(1, n), k)` -/
+theorem ydom_succ (k n t : ℤ) : (0 ≤ t ∧ t < clen (combs (apseq 1 n) k)) →
+    ydom psat k n (t + 1) =
+      capp (ydom psat k n t) (ysign psat k (cget (combs (apseq 1 n) k) t) (pow2 k)) := by
+  rintro ⟨h0, h1⟩
+  unfold clen at h1
+  have hlt : t.toNat < (ydomains k n).length := by unfold ydomains; omega
+  have hk : (t + 1).toNat = t.toNat + 1 := by omega
+  have hget : cget (combs (apseq 1 n) k) t = (ydomains k n)[t.toNat] := by
+    unfold cget ydomains
+    rw [List.getD_eq_getElem?_getD, List.getElem?_eq_getElem (by unfold ydomains at hlt; exact hlt)]; rfl
+  rw [hget]
+  unfold ydom capp
+  rw [hk, List.take_add_one, List.getElem?_eq_getElem hlt, List.map_append, List.flatten_append]
+  simp
+
+open Classical in
+theorem ydom_full (k n t : ℤ) (_hk : k ≥ 0) (ht : t = clen (combs (apseq 1 n) k)) :
+    ydom psat k n t = (allcl k n).filter (fun c => decide (psat c)) := by
+  subst ht
+  have hfull : ∀ dom : ISeq, ysign psat k dom (pow2 k) =
+      ((signvecsm k).map (fun s => smul s dom)).filter (fun c => decide (psat c)) := by
+    intro dom
+    unfold ysign
+    rw [List.take_of_length_le]
+    unfold signvecsm
+    rw [length_signsm, pow2_eq]
+    simp
+  unfold ydom allcl clen
+  rw [Int.toNat_natCast]
+  have : (ydomains k n).take (combs (apseq 1 n) k).length = ydomains k n := by
+    unfold ydomains; exact List.take_length
+  rw [this, List.filter_flatten, List.map_map]
+  congr 1
+  apply List.map_congr_left
+  intro dom _
+  exact hfull dom
+
+/-- MAIN LEMMA `all_clauses_spec`: `And(k >= 0, n >= 0, t == clen(D)) -> And(cdistinct(ydom(k, n, t)),
+    cvalid(k, n, ydom(k, n, t)), clen(ydom(k, n, t)) == navail_p(k, n))`, `D = combs(apseq(1, n), k)` -/
+theorem all_clauses_spec (k n t : ℤ) : (k ≥ 0 ∧ n ≥ 0 ∧ t = clen (combs (apseq 1 n) k)) →
+    (cdistinct (ydom psat k n t) ∧ cvalid psat k n (ydom psat k n t) ∧
+     clen (ydom psat k n t) = navail_p psat k n) := by
+  classical
+  rintro ⟨hk, _, ht⟩
+  rw [ydom_full psat k n t hk ht]
+  have hnd : ((allcl k n).filter (fun c => decide (psat c))).Nodup := (allcl_nodup k n).filter _
+  have hmem : ∀ c, c ∈ (allcl k n).filter (fun c => decide (psat c)) ↔ (valid1 k n c ∧ psat c) := by
+    intro c
+    rw [List.mem_filter, mem_allcl k n hk c]
+    simp
+  refine ⟨hnd, fun c hc => (hmem c).mp hc, ?_⟩
+  unfold clen navail_p
+  have hset : ({c | valid1 k n c ∧ psat c} : Set ISeq) =
+      ↑((allcl k n).filter (fun c => decide (psat c))).toFinset := by
+    ext c
+    simp only [Set.mem_ofPred_eq, Finset.mem_coe, List.mem_toFinset]
+    exact (hmem c).symm
+  rw [hset, Set.ncard_coe_finset, List.toFinset_card_of_nodup hnd]
+
+end Dense
+
+
+/-! # Fourteenth batch: parity samplers (`ifront`, `ilast`, `valid1x`, `cvalidx`, `navail_x`) -/
+
+/-- all but the last element -/
+def ifront (A : ISeq) : ISeq := A.dropLast
+/-- the last element (0 for the empty list) -/
+def ilast (A : ISeq) : ℤ := A.getLast?.getD 0
+
+/-- `ifront(isnoc(s, x)) == s` -/
+theorem ifront_snoc (s : ISeq) (x : ℤ) : ifront (isnoc s x) = s := by simp [ifront, isnoc]
+/-- `ilast(isnoc(s, x)) == x` -/
+theorem ilast_snoc (s : ISeq) (x : ℤ) : ilast (isnoc s x) = x := by simp [ilast, isnoc]
+
+/-- `ilen(A) >= 1 -> And(A == isnoc(ifront(A), ilast(A)), ilen(ifront(A)) == ilen(A) - 1)` -/
+theorem front_last (A : ISeq) : ilen A ≥ 1 →
+    (A = isnoc (ifront A) (ilast A) ∧ ilen (ifront A) = ilen A - 1) := by
+  intro h
+  rcases List.eq_nil_or_concat A with rfl | ⟨L, b, rfl⟩
+  · simp [ilen] at h
+  · rw [List.concat_eq_append] at h ⊢
+    have h1 : ifront (L ++ [b]) = L := ifront_snoc L b
+    have h2 : ilast (L ++ [b]) = b := ilast_snoc L b
+    rw [h1, h2]
+    exact ⟨rfl, by simp [ilen]⟩
+
+/-- `X + [b]`: `k` strictly increasing variables of `1..n`, then a bit — literally the z3 definition -/
+def valid1x (k n : ℤ) (A : ISeq) : Prop :=
+  ilen A = k + 1 ∧ k ≥ 0 ∧ (ilast A = 0 ∨ ilast A = 1) ∧
+  (∀ j : ℤ, (0 ≤ j ∧ j < k) → (1 ≤ iget (ifront A) j ∧ iget (ifront A) j ≤ n)) ∧
+  (∀ i j : ℤ, (0 ≤ i ∧ i < j ∧ j < k) → iget (ifront A) i < iget (ifront A) j)
+
+/-- `valid1x(k, n, A) == And(ilen(A) == k + 1, k >= 0, Or(b == 0, b == 1), ForAll([j], Implies(And(0 <= j, j < k),
+    And(1 <= iget(X, j), iget(X, j) <= n))), ForAll([i, j], Implies(And(0 <= i, i < j, j < k), iget(X, i) < iget(X, j))))`,
+    `X = ifront(A)`, `b = ilast(A)` -/
+theorem valid1x_def (k n : ℤ) (A : ISeq) : valid1x k n A ↔
+    (ilen A = k + 1 ∧ k ≥ 0 ∧ (ilast A = 0 ∨ ilast A = 1) ∧
+     (∀ j : ℤ, (0 ≤ j ∧ j < k) → (1 ≤ iget (ifront A) j ∧ iget (ifront A) j ≤ n)) ∧
+     (∀ i j : ℤ, (0 ≤ i ∧ i < j ∧ j < k) → iget (ifront A) i < iget (ifront A) j)) := Iff.rfl
+
+theorem valid1x_front (k n : ℤ) (A : ISeq) (h : valid1x k n A) :
+    ilen (ifront A) = k ∧ ∀ x ∈ ifront A, 1 ≤ x ∧ x ≤ n := by
+  obtain ⟨hl, hk, _, hb, _⟩ := h
+  have hlen : ilen (ifront A) = k := by
+    have := (front_last A (by omega)).2
+    omega
+  refine ⟨hlen, ?_⟩
+  intro x hx
+  obtain ⟨m, hm, rfl⟩ := List.getElem_of_mem hx
+  unfold ilen at hlen
+  have := hb (m : ℤ) ⟨by omega, by omega⟩
+  rw [iget_natCast _ m hm] at this
+  exact this
+
+/-- `valid1x(k, n, A) -> And(Not(haszero(X)), maxabs(X) <= zmax(n, 0), ilen(X) == k)`, `X = ifront(A)` -/
+theorem valid1x_bounds (k n : ℤ) (A : ISeq) : valid1x k n A →
+    (¬ haszero (ifront A) ∧ maxabs (ifront A) ≤ zmax n 0 ∧ ilen (ifront A) = k) := by
+  intro h
+  obtain ⟨hlen, he⟩ := valid1x_front k n A h
+  rw [zmax_eq_max]
+  refine ⟨?_, ?_, hlen⟩
+  · intro h0
+    have := he 0 h0
+    omega
+  · rw [maxabs_le_iff _ _ (by omega)]
+    intro x hx
+    have := he x hx
+    omega
+
+theorem valid1x_finite (k n : ℤ) : ({A | valid1x k n A} : Set ISeq).Finite := by
+  apply Set.Finite.subset (Finset.finite_toSet (allLists (Finset.Icc 0 (max n 1)) (k + 1).toNat))
+  intro A hA
+  obtain ⟨_, he⟩ := valid1x_front k n A hA
+  obtain ⟨hl, hk, hb, _, _⟩ := hA
+  have hlen : A.length = (k + 1).toNat := by unfold ilen at hl; omega
+  apply mem_allLists _ A _ hlen
+  intro x hx
+  rw [Finset.mem_Icc]
+  have hA' := (front_last A (by omega)).1
+  rw [hA'] at hx
+  unfold isnoc at hx
+  rcases List.mem_append.mp hx with h | h
+  · have := he x h; omega
+  · rw [List.mem_singleton] at h
+    rcases hb with hb | hb <;> omega
+
+section ParitySamplers
+
+-- the parity X + [b] holds under every planted assignment of the call: an ARBITRARY predicate
+variable (psatx : ISeq → Prop)
+
+/-- every element is `valid1x` and `psatx` -/
+def cvalidx (k n : ℤ) (L : CSeq) : Prop := ∀ A ∈ L, valid1x k n A ∧ psatx A
+/-- number of `k`-parities over `n` variables compatible with the planted assignments -/
+noncomputable def navail_x (k n : ℤ) : ℤ := (({A | valid1x k n A ∧ psatx A} : Set ISeq).ncard : ℤ)
+
+/-- `L == cnil -> cvalidx(k, n, L)` -/
+theorem cvalidx_nil (k n : ℤ) (L : CSeq) : L = cnil → cvalidx psatx k n L := by
+  rintro rfl A hA; cases hA
+
+/-- `And(cvalidx(k, n, L), cdistinct(L)) -> clen(L) <= navail_x(k, n)` -/
+theorem distinct_validx_le_card (k n : ℤ) (L : CSeq) :
+    (cvalidx psatx k n L ∧ cdistinct L) → clen L ≤ navail_x psatx k n := by
+  rintro ⟨hv, hd⟩
+  unfold clen navail_x
+  have hfin : ({A | valid1x k n A ∧ psatx A} : Set ISeq).Finite :=
+    (valid1x_finite k n).subset (fun _ h => h.1)
+  have hsub : (↑L.toFinset : Set ISeq) ⊆ {A | valid1x k n A ∧ psatx A} := by
+    intro A hA
+    have : A ∈ L := by simpa using hA
+    exact hv A this
+  have h1 := Set.ncard_le_ncard hsub hfin
+  rw [Set.ncard_coe_finset, List.toFinset_card_of_nodup hd] at h1
+  exact_mod_cast h1
+
+/-- `cvalidx(k, n, csnoc(L0, A)) == And(cvalidx(k, n, L0), valid1x(k, n, A), psatx(A))` -/
+theorem cvalidx_snoc (k n : ℤ) (L0 : CSeq) (A : ISeq) :
+    cvalidx psatx k n (csnoc L0 A) ↔ (cvalidx psatx k n L0 ∧ valid1x k n A ∧ psatx A) := by
+  unfold cvalidx csnoc
+  constructor
+  · intro h
+    exact ⟨fun d hd => h d (List.mem_append_left _ hd),
+           h A (List.mem_append_right _ (List.mem_singleton.mpr rfl))⟩
+  · rintro ⟨h1, h2⟩ d hd
+    rcases List.mem_append.mp hd with h | h
+    · exact h1 d h
+    · rw [List.mem_singleton] at h; subst h; exact h2
+
+/-- `And(cvalidx(k, n, L), 0 <= i, i < clen(L)) -> And(valid1x(k, n, cget(L, i)), psatx(cget(L, i)))` -/
+theorem cvalidx_get (k n : ℤ) (L : CSeq) (i : ℤ) :
+    (cvalidx psatx k n L ∧ 0 ≤ i ∧ i < clen L) → (valid1x k n (cget L i) ∧ psatx (cget L i)) := by
+  rintro ⟨hv, h0, h1⟩
+  exact hv _ (cget_mem L i ⟨h0, h1⟩)
+
+/-- `And(csubsel(R, L), cvalidx(k, n, L)) -> cvalidx(k, n, R)` -/
+theorem csubsel_cvalidx (k n : ℤ) (R L : CSeq) :
+    (csubsel R L ∧ cvalidx psatx k n L) → cvalidx psatx k n R := by
+  rintro ⟨hs, hv⟩ A hA
+  exact hv A (csubsel_subset R L hs A hA)
+
+end ParitySamplers
+
 end CnfSem
